@@ -49,6 +49,11 @@ FLAVOURS = {
                                           "-fno-sanitize-recover=undefined", "-D%s=1" % GUARD,
                                           "-DINOVESA_ALLOW_PS_RESET=1"],
                     ldflags=["-fsanitize=fuzzer,address,undefined"]),
+    "fuzzmaps": dict(cxx="clang++", flags=["-std=c++14", "-O1", "-g", "-w", "-fno-omit-frame-pointer",
+                                           "-fsanitize=fuzzer-no-link,address,undefined",
+                                           "-fno-sanitize-recover=undefined", "-D%s=1" % GUARD,
+                                           "-DINOVESA_ALLOW_PS_RESET=1"],
+                     ldflags=["-fsanitize=fuzzer,address,undefined"]),
     "fuzzfield": dict(cxx="clang++", flags=["-std=c++14", "-O1", "-g", "-w", "-fno-omit-frame-pointer",
                                             "-fsanitize=fuzzer-no-link,address,undefined",
                                             "-fno-sanitize-recover=undefined", "-D%s=1" % GUARD,
@@ -182,13 +187,16 @@ def build(flavour, quiet=True):
     elif flavour == "fuzzfield":
         srcs = [s for s in srcs if not s.endswith("/main.cpp")]
         extra = [os.path.join(VERIF, "fuzz", "fuzz_field.cpp")]
+    elif flavour == "fuzzmaps":
+        srcs = [s for s in srcs if not s.endswith("/main.cpp")]
+        extra = [os.path.join(VERIF, "fuzz", "fuzz_maps.cpp")]
     elif flavour == "fuzzcfg":
         srcs = [s for s in srcs if not s.endswith("/main.cpp")]
         extra = [os.path.join(VERIF, "fuzz", "fuzz_config.cpp")]
     th = hashlib.sha256((flavour + hh + "".join(s + hashlib.sha256(read(s)).hexdigest() for s in srcs + extra)
                          + " ".join(flags)).encode()).hexdigest()[:16]
     outdir = os.path.join(BIN, flavour + "-" + th)
-    name = {"shim": "libivshim.so", "shimsan": "libivshim.so", "fuzz": "fuzz_inputs", "fuzzcfg": "fuzz_config", "fuzzfield": "fuzz_field"}.get(flavour, "inovesa")
+    name = {"shim": "libivshim.so", "shimsan": "libivshim.so", "fuzz": "fuzz_inputs", "fuzzcfg": "fuzz_config", "fuzzfield": "fuzz_field", "fuzzmaps": "fuzz_maps"}.get(flavour, "inovesa")
     art = os.path.join(outdir, name)
     if os.path.exists(art):
         os.utime(outdir, None)
